@@ -776,5 +776,5 @@ func runHTTPPhase(r *mon.Run) {
 		}
 	}
 	r.Extra("http_cases_total", n)
-	r.Extra("exhaustive_http_failure_sequences_upto", map[bool]int{false: 2, true: 3}[r.Thorough()])
+	r.Extra("exhaustive_http_failure_sequences_upto", map[bool]string{false: "2", true: "3"}[r.Thorough()])
 }
